@@ -62,7 +62,7 @@ def _case(draw):
         spec['specials'] = list(spec.get('specials') or []) + [[draw(st.integers(0, spec['n'] - 1)), draw(st.integers(0, D - 1)),
                                                                  draw(st.sampled_from([float('inf'), float('-inf'), float('nan')]))]
                                                                 for _ in range(draw(st.integers(1, 3)))]
-    err = draw(st.sampled_from([None] * 12 + ['uncovered', 'len_mismatch']))
+    err = draw(st.sampled_from([None] * 12 + ['uncovered', 'uncovered', 'len_mismatch']))
     uncovered = [j for j in range(D) if j not in sc]
     if err == 'uncovered' and not uncovered:
         err = 'len_mismatch'
@@ -169,6 +169,12 @@ def check(case, obs):
             out = call(tr.to_mef, data, bad, curves, sc_ch)
             out2 = call(tr.to_mef, data, sp(unc, True), curves, sc_ch)
             obs.claim('refuse', raised(out) and raised(out2), 'a channel without standard curve was passed through')
+            # ... every uncovered channel, asked for alone by name and by position (names and position numbers may be
+            # contained in those of covered channels: 'FL1' in 'FL1-H', 1 in 10)
+            for u in [j for j in range(D) if j not in sc]:
+                for by_name in (True, False):
+                    o = call(tr.to_mef, data, sp(u, by_name), curves, sc_ch)
+                    obs.claim('refuse', raised(o), lambda: 'channel %r has no standard curve (curves for %r) but the request was accepted' % (sp(u, by_name), sc_ch))
         else:
             out = call(tr.to_mef, data, req_ch, curves + [curves[0]], sc_ch)
             out2 = call(tr.to_mef, data, req_ch, curves[:-1], sc_ch) if k > 0 else out
